@@ -171,7 +171,8 @@ def build_reaction(spec, th):
         defn = reaction_string(names, coeff, phase_of)
     else:
         defn = reaction_dict(names, coeff, phase_of)
-    rxn = tmo.Reaction(defn, reactant=spec['reactant'], X=spec['X'], chemicals=chems, basis=basis)
+    rxn = tmo.Reaction(defn, reactant=None if spec.get('infer') else spec['reactant'], X=spec['X'],
+                       chemicals=chems, basis=basis)
     if spec['how'] == 'copy_wt':
         rxn = rxn.copy(basis='wt')
     elif spec['how'] == 'set_wt':
